@@ -73,9 +73,11 @@ def _lock(path):
 
 def _prune(variant, keep):
     pat = os.path.join(CACHE, 'build', variant + '-*')
-    dirs = sorted(glob.glob(pat), key=lambda d: os.path.getmtime(d), reverse=True)
-    for d in dirs[2:]:
-        if d != keep:
+    dirs = sorted([d for d in glob.glob(pat) if os.path.isdir(d) and '.tmp' not in d], key=lambda d: os.path.getmtime(d), reverse=True)
+    now = time.time()
+    for d in dirs[3:]:
+        # never remove a build another process may be using (scratch worktrees are built concurrently)
+        if d != keep and now - os.path.getmtime(d) > 6 * 3600:
             shutil.rmtree(d, ignore_errors=True)
 
 
